@@ -376,6 +376,36 @@ def hist_shard(arg):
     return res
 
 
+def corpus_shard(_):
+    """corpus/C15/*.json: inputs that once exposed something; oracle + both models, run first"""
+    import glob
+    res = Result()
+    LRUCache = _lru_class()
+    root = os.path.join(proto.ROOT, '.build', 'c15-corpus-%d' % os.getpid())
+    hist_batch, lru_batch = [], []
+    for path in sorted(glob.glob(os.path.join(proto.ROOT, 'corpus', 'C15', '*.json'))):
+        with open(path) as f:
+            case = json.load(f)
+        res.evaluations += 1
+        res.count('corpus')
+        if case['kind'] == 'lru':
+            trace = []
+            fail, outs, dmp, items = lru_oracle(case['cap'], case['ops'], case.get('nkeys', NKEYS), LRUCache, trace=trace)
+            if fail:
+                res.failures.append(fail)
+            else:
+                lru_batch.append((case['cap'], case.get('nkeys', NKEYS), case['ops'], trace))
+        else:
+            fail, answers, stats = run_history(case['cfg'], case['ops'], case.get('strict', True), root)
+            if fail:
+                res.failures.append(fail)
+            else:
+                hist_batch.append((case['cfg'], case['ops'], case.get('strict', True), answers))
+    lru_trace_compare(lru_batch, res, 'corpus')
+    hist_compare(hist_batch, res, 'corpus')
+    return res
+
+
 def lru_args(ctx):
     L = ctx.n(7, 9)
     args = []
@@ -404,6 +434,8 @@ def run(ctx):
     extra = sorted(m for m in own - MODELLED - HELPERS_OK if not m.startswith('_') or m.startswith('__'))
     if extra:
         res.notes.append('unmodelled own methods of LRUCache (outside the operation alphabet of the model): %s' % ', '.join(extra))
+    for r in pmap('harness.props.c15', 'corpus_shard', [0]):
+        res.merge(r)
     args, L = lru_args(ctx)
     t0 = time.time()
     for r in pmap('harness.props.c15', 'lru_shard', args):
